@@ -18,10 +18,13 @@ SFprewrap   == File(TRUE, 72, TRUE, 72, 1, GenMod - 2, Full(1), 1, 1)
 SFmidwrap   == File(TRUE, 72, TRUE, 72, 1, GenMod - 1, Mixed(2, 1), 1, 2)
 SFotherver  == File(TRUE, 72, TRUE, 72, 2, 8, Full(1), 1, 1)
 SFsmallsize == File(TRUE, 72, TRUE, 40, 1, 4, Full(1), 1, 1)
+\* unusable for its magic number only, with a plausible version and generation and a record NOBODY published (9): a
+\* wipe that dies half way must not leave this file looking like a segment (the daemon truncates first)
+SFjunk      == File(TRUE, 72, FALSE, 72, 1, 4, Full(9), 0, 0)
 
 SFall == { SFmissing, SFempty, SFgarbage, SFhdronly, SFwiped, SFver1gen0, SFfirstpub,
-            SFbadmagic, SFvalid, SFgen2, SFprewrap, SFmidwrap, SFotherver, SFsmallsize }
-SFcold == { SFmissing, SFempty, SFgarbage, SFhdronly, SFwiped, SFver1gen0, SFbadmagic, SFsmallsize }
+            SFbadmagic, SFvalid, SFgen2, SFprewrap, SFmidwrap, SFotherver, SFsmallsize, SFjunk }
+SFcold == { SFmissing, SFempty, SFgarbage, SFhdronly, SFwiped, SFver1gen0, SFbadmagic, SFsmallsize, SFjunk }
 SFwarm == { SFfirstpub, SFvalid, SFgen2, SFprewrap, SFmidwrap, SFotherver }
 SFra == { SFvalid, SFmidwrap }
 SFrp == { SFvalid, SFgen2, SFmidwrap }
